@@ -1,6 +1,6 @@
 /-
-Proofs/C02Hyps.lean — C02: the panic aspect of each outcome type, and the one new decidable hypothesis
-(`LoopNilKeyFree`). Definitions only, so that the driver can import this file without the proofs.
+Proofs/C02Hyps.lean — C02: the panic aspect of each outcome type. Definitions only, so that the driver can
+import this file without the proofs.
 -/
 import InspectorModel.Gen.Get
 import InspectorModel.Gen.Reset
@@ -30,38 +30,5 @@ def CopyOut.isPanic : CopyOut → Bool
 def SetOut.isPanic : SetOut → Bool
   | .panic => true
   | _ => false
-
-/-! ## Loop: the hypothesis on map keys -/
-
-/-- The map keys that loop mode would render are all non-nil (only pointer-typed keys can be nil). -/
-def keysNonNil (k : Node) (ks : List Val) : Bool := !k.ptr || ks.all (fun key => !key.isNilPtr)
-
-/-- The map that loop mode reaches along `p` (the first map or slice on the way is looped, whatever remains of
-the path) holds no nil pointer key. Mirrors the navigation of `loopN`; `true` where no map is reached. -/
-def loopedKeysNonNil (n : Node) (v : Val) (p : List Seg) : Bool :=
-  match n with
-  | .basic _ => true
-  | .slice _ _ => true
-  | .map i k _ =>
-    if i.ptr && v.isNilPtr then true else
-    (match derefIf i.ptr v with
-     | .map _ ks _ => keysNonNil k ks
-     | _ => true)
-  | .struct i chld =>
-    match p with
-    | [] => true
-    | s :: rest =>
-      if i.ptr && v.isNilPtr then true else
-      match derefIf i.ptr v with
-      | .struct fs =>
-        (match findField chld fs s.text with
-         | none => true
-         | some (ch, fv) => if ch.isLeaf then true else loopedKeysNonNil ch fv rest)
-      | _ => true
-
-/-- Hypothesis of `loop_no_panic`: the iterator never asks for a key, or the looped map has no nil pointer key
-(the emitted key rendering `*k` dereferences it — not among the listed defects). -/
-def LoopNilKeyFree (sc : LoopScript) (n : Node) (v : Val) (p : List Seg) : Bool :=
-  sc.wantKey.all (fun b => !b) || loopedKeysNonNil n v p
 
 end Inspector
